@@ -13,6 +13,9 @@ pub struct C20 {
     n_rip_uniform: u64,
     n_rip_mixed: u64,
     n_igs_table: u64,
+    n_rip_pairs: u64,
+    n_igs_mixed: u64,
+    igs_mixed_len: u32,
 }
 
 /// (level prefix, command letter)
@@ -230,6 +233,78 @@ impl C20 {
         }
     }
 
+    fn rip_pair_case(&self, k: u64) -> StreamCase {
+        // every ordered pair of RIP commands, each with a full-length parameter string of one digit class: the first
+        // leaves a state (viewport, style, fill, font, saved image), the second draws on it
+        let n = RIP_CMDS.len() as u64;
+        let mut r = k;
+        let d2 = [b'0', b'1', b'Z'][(r % 3) as usize];
+        r /= 3;
+        let d1 = [b'0', b'1', b'Z'][(r % 3) as usize];
+        r /= 3;
+        let (l2, c2) = RIP_CMDS[(r % n) as usize];
+        r /= n;
+        let (l1, c1) = RIP_CMDS[(r % n) as usize];
+        let mut bytes = b"!".to_vec();
+        rip_cmd(&mut bytes, l1, c1, &[d1; 24]);
+        rip_cmd(&mut bytes, l2, c2, &[d2; 24]);
+        bytes.extend_from_slice(b"\n");
+        StreamCase {
+            emu: "rip".into(),
+            music: 0,
+            w: 80,
+            h: 43,
+            alloc: true,
+            prefix: vec![],
+            bytes,
+        }
+    }
+
+    fn igs_mixed_case(&self, k: u64, max_len: u32) -> StreamCase {
+        // every IGS command x (A) every parameter vector of length 0..=max_len over {0,1,2,3,40,9999} and (B) every
+        // vector of length max_len+1..=max_len+5 over {0,9999}, followed by a fixed probe that draws with whatever
+        // pen / pattern / mode the command left behind
+        const A: [&str; 6] = ["0", "1", "2", "3", "40", "9999"];
+        const B: [&str; 2] = ["0", "9999"];
+        let per_a: u64 = (0..=max_len).map(|l| 6u64.pow(l)).sum();
+        let per_b: u64 = (max_len + 1..=max_len + 5).map(|l| 2u64.pow(l)).sum();
+        let per_cmd = per_a + per_b;
+        let c = IGS_CMDS[((k / per_cmd) % IGS_CMDS.len() as u64) as usize];
+        let mut idx = k % per_cmd;
+        let (vals, base, mut len): (&[&str], u64, u32) = if idx < per_a {
+            (&A, 6, 0)
+        } else {
+            idx -= per_a;
+            (&B, 2, max_len + 1)
+        };
+        loop {
+            let n = base.pow(len);
+            if idx < n {
+                break;
+            }
+            idx -= n;
+            len += 1;
+        }
+        let mut bytes = b"G#".to_vec();
+        bytes.push(c);
+        for i in 0..len {
+            if i > 0 {
+                bytes.push(b',');
+            }
+            bytes.extend_from_slice(vals[((idx / base.pow(i)) % base) as usize].as_bytes());
+        }
+        bytes.extend_from_slice(b":\nG#L0,0,9,9:\nG#B2,2,6,6,0:\nG#P3,3:\nG#W1,1,x@\nG#s0:\n");
+        StreamCase {
+            emu: "igs".into(),
+            music: 0,
+            w: 80,
+            h: 25,
+            alloc: true,
+            prefix: vec![],
+            bytes,
+        }
+    }
+
     fn igs_table_case(&self, k: u64) -> StreamCase {
         // every IGS command x parameter count 0..=12 x value class
         let mut r = k;
@@ -291,6 +366,10 @@ impl C20 {
             (self.mixed_case(k - self.n_rip_uniform), "rip-mixed")
         } else if k < self.n_rip_uniform + self.n_rip_mixed + self.n_igs_table {
             (self.igs_table_case(k - self.n_rip_uniform - self.n_rip_mixed), "igs-table")
+        } else if k < self.n_rip_uniform + self.n_rip_mixed + self.n_igs_table + self.n_rip_pairs {
+            (self.rip_pair_case(k - self.n_rip_uniform - self.n_rip_mixed - self.n_igs_table), "rip-pairs")
+        } else if k < self.n_rip_uniform + self.n_rip_mixed + self.n_igs_table + self.n_rip_pairs + self.n_igs_mixed {
+            (self.igs_mixed_case(k - self.n_rip_uniform - self.n_rip_mixed - self.n_igs_table - self.n_rip_pairs, self.igs_mixed_len), "igs-mixed")
         } else {
             (self.random_case(ctx, k), "random")
         }
@@ -462,7 +541,7 @@ impl Prop for C20 {
         "C20"
     }
     fn rule(&self) -> &'static str {
-        "streams are fed character by character to the real RIPscrip (640x350 BGI canvas, file commands pointed at an empty scratch directory) and IGS (DrawExecutor) emulations under the panic monitor, the pixel work counter (budget 8*(n+2)*canvas), the virtual blocking monitor (any sleep > 0 ms raises) and, after every command terminator, an assertion that get_picture_data() returns width*height*4 bytes; pending IGS loop steps are drained through get_next_action. cases: (rip-uniform) every RIP level-0/1/9 command x parameter length 0..=24 x {all-0, all-1, all-Z} x 2 terminators; (rip-mixed) every command x every string over {0,1,Z} up to length 6; (igs-table) every IGS command x 0..=12 parameters x 7 value classes incl. negative and 2^31-1; (random) seeded mixed/over-long/truncated parameter lists, continuation lines, text variables, loops with delays, chained commands on a random state prefix. distinct_nontrivial = distinct (emulation, stream head, result kinds, panicked, picture observed) fingerprints"
+        "streams are fed character by character to the real RIPscrip (640x350 BGI canvas, file commands pointed at an empty scratch directory) and IGS (DrawExecutor) emulations under the panic monitor, the pixel work counter (budget 8*(n+2)*canvas), the virtual blocking monitor (any sleep > 0 ms raises) and, after every command terminator, an assertion that get_picture_data() returns width*height*4 bytes; pending IGS loop steps are drained through get_next_action. cases: (rip-uniform) every RIP level-0/1/9 command x parameter length 0..=24 x {all-0, all-1, all-Z} x 2 terminators; (rip-mixed) every command x every string over {0,1,Z} up to length 6; (igs-table) every IGS command x 0..=12 parameters x 7 value classes incl. negative and 2^31-1; (rip-pairs) every ordered pair of RIP commands, each with 24 parameter characters of one class {0,1,Z}: state command then drawing command; (igs-mixed) every IGS command x every parameter vector of length 0..=4 (thorough 5) over {0,1,2,3,40,9999} and of the next five lengths over {0,9999}, followed by a drawing probe; (random) seeded mixed/over-long/truncated parameter lists, continuation lines, text variables, loops with delays, chained commands on a random state prefix. distinct_nontrivial = distinct (emulation, stream head, result kinds, panicked, picture observed) fingerprints"
     }
     fn meta(&self, _ctx: &Ctx) -> Value {
         json!({"floor_evaluations": 5000, "floor_distinct": 300, "watchdog_s": 60, "watchdog_is_violation": true, "plain_pass": "quick",
@@ -473,7 +552,11 @@ impl Prop for C20 {
         let per_cmd: u64 = (0..=6).map(|l| 3u64.pow(l)).sum();
         self.n_rip_mixed = per_cmd * RIP_CMDS.len() as u64;
         self.n_igs_table = 7 * 13 * IGS_CMDS.len() as u64;
-        self.n_rip_uniform + self.n_rip_mixed + self.n_igs_table + ctx.tier.pick(30_000, 1_500_000)
+        self.n_rip_pairs = 9 * (RIP_CMDS.len() * RIP_CMDS.len()) as u64;
+        self.igs_mixed_len = ctx.tier.pick(4, 5);
+        let l = self.igs_mixed_len;
+        self.n_igs_mixed = ((0..=l).map(|i| 6u64.pow(i)).sum::<u64>() + (l + 1..=l + 5).map(|i| 2u64.pow(i)).sum::<u64>()) * IGS_CMDS.len() as u64;
+        self.n_rip_uniform + self.n_rip_mixed + self.n_igs_table + self.n_rip_pairs + self.n_igs_mixed + ctx.tier.pick(30_000, 1_500_000)
     }
     fn run_case(&mut self, ctx: &mut Ctx, k: u64) {
         let (case, class) = self.case_for(ctx, k);
